@@ -656,6 +656,11 @@ func (x *FnExec) loadL(st *State, addr Term, t types.Type, leaves []Leaf) Val {
 	if inv := x.typeInv(v, t, nil); inv != "true" {
 		x.ctx.Assert(inv)
 	}
+	// ... and memory holds only addresses of objects that exist: below the allocation frontier
+	// at the time of the load (so never equal to anything allocated afterwards)
+	for _, c := range x.existsBelow(v, t, st.alloc) {
+		x.ctx.Assert(c)
+	}
 	return v
 }
 
@@ -900,6 +905,9 @@ func (x *FnExec) uniqueName(name string) string {
 func (x *FnExec) oblige(name, kind, src string, reach Term, goal Term) {
 	name = x.uniqueName(name)
 	q := x.queryPrefix() + "(assert " + reach + ")\n(assert " + Not(goal) + ")\n"
+	if goal == "true" {
+		q = "(assert false)\n" // nothing to prove: keep the obligation (and its claim), not the context
+	}
 	x.obls = append(x.obls, &Obligation{Name: x.fnName() + "#" + name, Func: x.fnName(), Kind: kind, Src: src, Query: q,
 		Inputs: append([]string(nil), x.inputs...), InputDesc: append([]string(nil), x.inputDesc...)})
 }
@@ -1012,6 +1020,12 @@ func (x *FnExec) run() {
 	alloc0 := x.ctx.Named("alloc0", SInt)
 	x.ctx.Assert(Gt(alloc0, Lit(int64(x.eng.globalTop()))))
 	st := &State{reach: "true", heaps: map[string]Term{}, alloc: alloc0}
+	if x.con != nil && (!x.con.ModAll || len(x.con.Modifies) > 0) {
+		// a contract that frames the abstract state: "ghost:anyOther" stands for every ghost cell
+		// this function never names; a callee that may change all of the abstract state
+		// (modifies * without a ghost list) changes it, and the frame obligation then fails
+		st.heaps["ghost:anyOther"] = x.initHeap("ghost:anyOther", false)
+	}
 	x.entry = st.clone()
 
 	// parameters
@@ -1840,6 +1854,10 @@ func (x *FnExec) havocLoc(env *Env, st *State, m CExpr) {
 	}
 	if c, ok := m.(*CCall); ok && c.Fn == "ghost" {
 		if id, ok := c.Args[0].(*CIdent); ok {
+			if id.Name == "none" {
+				// ghost(none): "the abstract state is framed and nothing of it changes"
+				return
+			}
 			key := "ghost:" + id.Name
 			h := x.getHeap(st, key, false)
 			if len(c.Args) > 1 {
@@ -2083,7 +2101,9 @@ func (x *FnExec) loopGhostKeys(body map[*ssa.BasicBlock]bool) (bool, map[string]
 			for _, m := range con.Modifies {
 				if c, ok := m.(*CCall); ok && c.Fn == "ghost" {
 					if id, ok := c.Args[0].(*CIdent); ok {
-						keys["ghost:"+id.Name] = true
+						if id.Name != "none" {
+							keys["ghost:"+id.Name] = true
+						}
 						listed = true
 					}
 				}
@@ -2198,7 +2218,9 @@ func (x *FnExec) calleeWriteKeys(c *ssa.CallCommon) ([]string, bool) {
 		case *CCall:
 			if m.Fn == "ghost" {
 				if id, ok := m.Args[0].(*CIdent); ok {
-					ks = append(ks, "ghost:"+id.Name)
+					if id.Name != "none" {
+						ks = append(ks, "ghost:"+id.Name)
+					}
 					continue
 				}
 			}
